@@ -351,6 +351,12 @@ func verifField(label string, o, c reflect.Value) []string {
 	if t.Name() == "Address" {
 		if o.Len() != c.Len() {
 			bad("len", fmt.Sprintf("len %d became %d", o.Len(), c.Len()))
+			return out
+		}
+		for j := 0; j < o.Len(); j++ {
+			if !verifEqual(o.Index(j), c.Index(j)) {
+				bad("steps-equal", fmt.Sprintf("step %d differs", j))
+			}
 		}
 		return out
 	}
